@@ -1648,6 +1648,20 @@ where
     }
 }
 
+// Verification hooks: compiled only with the `verif-hooks` feature; they add no behaviour.
+#[cfg(feature = "verif-hooks")]
+impl<T, S> HashSet<T, S> {
+    /// Wraps a map as a set.
+    pub fn verif_from_map(map: HashMap<T, (), S>) -> Self {
+        HashSet { map }
+    }
+
+    /// Exposes the underlying map.
+    pub fn verif_map(&self) -> &HashMap<T, (), S> {
+        &self.map
+    }
+}
+
 #[allow(dead_code)]
 fn assert_covariance() {
     fn set<'new>(v: HashSet<&'static str>) -> HashSet<&'new str> {
